@@ -886,6 +886,20 @@ class GOLoop(PSyLoop):
         fld_sym = self.scope.symbol_table.lookup(self.field_name)
         return StructureReference.create(fld_sym, members[1:])
 
+    def _iterates_over_whole_array(self):
+        '''
+        :returns: whether this loop goes over every element of the field \
+            array: it is for a 'go_every' field and its iteration space \
+            is not one that was added by the user (whose bounds, given in \
+            the configuration file, must be honoured).
+        :rtype: bool
+
+        '''
+        return (self.field_space == "go_every" and
+                self.iteration_space.lower() in ["go_all_pts",
+                                                 "go_internal_pts",
+                                                 "go_external_pts"])
+
     def upper_bound(self):
         ''' Creates the PSyIR of the upper bound of this loop.
 
@@ -893,7 +907,7 @@ class GOLoop(PSyLoop):
         :rtype: :py:class:`psyclone.psyir.nodes.Node`
 
         '''
-        if self.field_space == "go_every":
+        if self._iterates_over_whole_array():
             # Bounds are independent of the grid-offset convention in use
             # We look-up the upper bounds by enquiring about the SIZE of
             # the array itself
@@ -933,7 +947,7 @@ class GOLoop(PSyLoop):
         :rtype: :py:class:`psyclone.psyir.nodes.Node`
 
         '''
-        if self.field_space == "go_every":
+        if self._iterates_over_whole_array():
             # Bounds are independent of the grid-offset convention in use
             return Literal("1", INTEGER_TYPE)
 
